@@ -31,17 +31,19 @@ FutureOnly == \A t \in Times : t <= now => future[t] = <<>>
 \* C12: what left a supply and has not been given back is accounted for by a borrow block in progress or by a
 \*      give-back helper that is already scheduled (claimed only for configurations without interrupts, DESIGN.md)
 RECURSIVE SumSeq(_)
-SumSeq(s) == IF s = <<>> THEN 0 ELSE Head(s) + SumSeq(Tail(s))
+SumSeq(s) == IF s = <<>> THEN Zero ELSE VAdd(Head(s), SumSeq(Tail(s)))
 OutOf(p) ==
   LET RECURSIVE Frames(_) Frames(a) == IF a > MaxActs THEN <<>> ELSE
         [i \in 1..Len(act[a].stack) |->
            IF act[a].stack[i].k = "borrow" /\ act[a].stack[i].p = p /\ act[a].stack[i].ph \in {"rm", "ins", "body", "x1"}
-           THEN act[a].stack[i].amt ELSE 0] \o Frames(a + 1)
+           THEN act[a].stack[i].amt ELSE Zero] \o Frames(a + 1)
       helpers == [i \in 1..Len(pending) |-> IF pending[i].tgt = 0 /\ pending[i].sig[1] = "hlp" /\ pending[i].sig[2] = p
-                                                 /\ pending[i].sig[4] THEN pending[i].sig[3] ELSE 0] IN
-  SumSeq(Frames(1)) + SumSeq(helpers)
-Conservation == \A p \in 1..NRes : obj.pool[p].level + OutOf(p) = ResInit
-ShareBounded == \A p \in (NRes + 1)..MaxPools : obj.pool[p].level <= obj.pool[p].debit
+                                                 /\ pending[i].sig[4] THEN pending[i].sig[3] ELSE Zero] IN
+  VAdd(SumSeq(Frames(1)), SumSeq(helpers))
+Conservation == \A p \in 1..NRes : VAdd(obj.pool[p].level, OutOf(p)) = Vec(ResInit, ResInitB)
+ShareBounded == \A p \in (NRes + 1)..MaxPools : VGe(obj.pool[p].debit, obj.pool[p].level)
+\* C12: no level ever drops below zero (any type)
+NonNegative == \A p \in 1..MaxPools : ~VNeg(obj.pool[p].level)
 
 \* sanity of the specification itself: whoever is executing can take a step (a state in which `run` is not empty
 \* and nothing is enabled would silently cut behaviours short and hide everything behind it)
